@@ -157,6 +157,8 @@ class Intervals:
             return (v, v)
         if isinstance(o, dict) and o.get("c") == "item":
             c = flow.WELL_KNOWN_INT_CONSTS.get(o.get("def"))
+            if c is None:
+                c = flow.const_int_eval(b, o)       # a named integer constant of the workspace (`const NANOS_PER_SEC: i128 = 1_000_000_000;`)
             return (c, c) if c is not None else None
         p = flow.op_place(o)
         if p is None:
